@@ -21,7 +21,8 @@ def load_cfg(prop):
            "harness_args": getattr(mod, "HARNESS_ARGS", []),
            "groups": getattr(mod, "CONST_GROUPS", []),
            "timeout": getattr(mod, "TIMEOUT", 3600), "stall": getattr(mod, "STALL", 90),
-           "rss_limit": getattr(mod, "RSS_LIMIT", 4 << 30)}
+           "rss_limit": getattr(mod, "RSS_LIMIT", 4 << 30),
+           "batch_sessions": getattr(mod, "BATCH_SESSIONS", 100 if mod.HARNESS in ("broker", "sec") else 0)}
     return cfg
 
 
@@ -157,9 +158,14 @@ def main():
                 small_res = vcore.execute(cfg, small, tag="final")
             except BuildError:
                 small_res = sr
+            recurs = any(vcore.classify(x, known) not in ("ok",) and not vcore.classify(x, known).startswith("known:") for x in small_res)
             note = {"viol-impl": "implementation differs from the model AND from the spec on this input",
                     "viol-model": "implementation and model agree, both differ from the spec (no known finding covers it)",
                     "corr": "correspondence broken: implementation differs from the model but meets the spec on every input searched"}[kind]
+            if not recurs:
+                # timing / schedule dependent: the re-run of the (shrunk) session agreed; report what was observed
+                small_res = sr
+                note += "\n(the deviation did not recur when the session was run again: the original, unshrunk trace of the run is given)"
             path = vcore.write_replay(prop, kind, small_res, note)
             if kind == "corr":
                 violations.append(("corr", path))
